@@ -423,4 +423,96 @@ theorem ctl_early_exit_witness :
   · norm_num [ctlInit]
   · norm_num [ctlLoop, ctlBody]
 
+
+/-! ### the repaired loop (patches/C12-rk-adaptive-final-time.diff) -/
+
+/-- loop-head invariant of the repaired loop -/
+def CtlInvF (tf : K) (s : Ctl K) : Prop :=
+  0 ≤ s.dt ∧ (s.t = tf ∨ (s.t < tf ∧ s.dt ≤ tf - s.t))
+
+theorem ctlInit_invF (ti tf dt : K) (s : Ctl K) (h : ctlInit 0 ti tf dt = some s) : CtlInvF tf s := by
+  obtain ⟨⟨h1, h2, _⟩, h4⟩ := ctlInit_inv ti tf dt s h
+  have key : s.dt ≤ tf - s.t := by
+    unfold ctlInit at h
+    by_cases hc : tf - ti < dt
+    · simp only [hc, if_true] at h
+      by_cases hd : tf - ti < 0
+      · simp [hd] at h
+      · simp only [hd, if_false, Option.some.injEq] at h
+        subst h; exact le_rfl
+    · simp only [hc, if_false] at h
+      by_cases hd : dt < 0
+      · simp [hd] at h
+      · simp only [hd, if_false, Option.some.injEq] at h
+        subst h; exact not_lt.mp hc
+  refine ⟨h2, ?_⟩
+  rcases lt_or_eq_of_le h1 with hlt | heq
+  · exact Or.inr ⟨hlt, key⟩
+  · exact Or.inl heq
+
+theorem ctlBodyFixed_inv (tf : K) (accept : Bool) (m : K) (hm : 0 ≤ m) (s : Ctl K)
+    (hi : CtlInvF tf s) (hg : s.t < tf - 1 / 2 * s.dt) : CtlInvF tf (ctlBodyFixed tf (1 / 2) accept m s) := by
+  obtain ⟨h2, h3⟩ := hi
+  have hlt : s.t < tf ∧ s.dt ≤ tf - s.t := by
+    rcases h3 with h | h
+    · rw [h] at hg; exfalso; linarith
+    · exact h
+  unfold ctlBodyFixed
+  simp only []
+  have ht' : (if accept = true then (if s.dt < tf - s.t then s.t + s.dt else tf) else s.t) ≤ tf := by
+    split
+    · split <;> linarith
+    · linarith
+  generalize (if accept = true then (if s.dt < tf - s.t then s.t + s.dt else tf) else s.t) = t' at ht' ⊢
+  split
+  · rename_i hc
+    have hlt' : t' < tf := by linarith [mul_nonneg (by norm_num : (0 : K) ≤ 1 / 2) h2]
+    refine ⟨?_, Or.inr ⟨hlt', ?_⟩⟩
+    · simp only []
+      split
+      · linarith
+      · exact mul_nonneg h2 hm
+    · simp only []
+      split
+      · exact le_rfl
+      · rename_i hd; exact not_lt.mp hd
+  · split
+    · rename_i hc hlt'
+      exact ⟨by simp only []; linarith, Or.inr ⟨hlt', le_rfl⟩⟩
+    · rename_i hc hge
+      exact ⟨h2, Or.inl (le_antisymm ht' (not_lt.mp hge))⟩
+
+/-- FULL PROPERTY for the repaired step-size control: whatever the outcomes of the error test and
+the (non-negative) time multipliers, when the loop terminates the current time IS the final time
+(partial correctness: endless rejection remains possible) -/
+theorem ctlFixed_exit_reaches_tf (tf : K) (os : List (Bool × K)) (hos : ∀ o ∈ os, 0 ≤ o.2)
+    (s s' : Ctl K) (hi : CtlInvF tf s) (hrun : ctlLoopFixed tf (1 / 2) os s = (s', true)) :
+    s'.t = tf := by
+  have exit_ok : ∀ s : Ctl K, CtlInvF tf s → ¬ s.t < tf - 1 / 2 * s.dt → s.t = tf := by
+    intro s hs hg
+    rcases hs.2 with h | ⟨h1, h2⟩
+    · exact h
+    · exfalso; apply hg
+      have := hs.1
+      linarith
+  induction os generalizing s with
+  | nil =>
+    simp only [ctlLoopFixed, Prod.mk.injEq, Bool.not_eq_true', decide_eq_false_iff_not] at hrun
+    obtain ⟨rfl, hg⟩ := hrun
+    exact exit_ok _ hi hg
+  | cons o os ih =>
+    rw [ctlLoopFixed] at hrun
+    split at hrun
+    · rename_i hg
+      exact ih (fun o' ho' => hos o' (List.mem_cons_of_mem _ ho')) _
+        (ctlBodyFixed_inv tf o.1 o.2 (hos o (List.mem_cons_self)) s hi hg) hrun
+    · rename_i hg
+      simp only [Prod.mk.injEq, and_true] at hrun
+      subst hrun
+      exact exit_ok _ hi hg
+
+-- the witness of the early exit, on the repaired loop: it goes on and reaches tf = 1
+example : ctlLoopFixed (1 : ℚ) (1 / 2) [(true, 1), (true, 1)] ⟨0, 7 / 10⟩ = (⟨1, 3 / 10⟩, true) := by
+  norm_num [ctlLoopFixed, ctlBodyFixed]
+
 end TfelVerif.C12
